@@ -404,11 +404,17 @@ func (p *proxyConn) writeErrorResponse(req *http.Request, err error) error {
 	if res == nil {
 		res = p.errorResponse(req, err)
 	}
+	// The challenge of a 407 is addressed to our client, it must survive
+	// the removal of hop-by-hop headers by the response modifiers.
+	challenge := res.Header.Values("Proxy-Authenticate")
 	if err := p.modifyResponse(res); err != nil {
 		log.Error(req.Context(), "error modifying error response", "error", err)
 		if !p.WithoutWarning {
 			proxyutil.Warning(res.Header, err)
 		}
+	}
+	if len(challenge) > 0 && res.StatusCode == http.StatusProxyAuthRequired {
+		res.Header["Proxy-Authenticate"] = challenge
 	}
 	return p.writeResponse(res)
 }
